@@ -1,6 +1,7 @@
 package chainsim
 
 import (
+	"bytes"
 	"fmt"
 	"math/big"
 	"testing"
@@ -279,6 +280,20 @@ func checkQiAuthorisation(r *Runner, tx *types.Transaction, fail func(class, wit
 		}},
 		{"chain-id", func(q *types.QiTx) bool { q.ChainID = new(big.Int).Add(q.ChainID, big.NewInt(1)); return true }},
 	}
+	// the digest the owners sign covers the data field whatever its length (20 bytes: the contract that will own wrapped Qi;
+	// 22 bytes: a conversion's slip and refund address; anything else)
+	digests := map[common.Hash]string{}
+	for _, d := range [][]byte{nil, {0x01}, bytes.Repeat([]byte{0xaa}, 20), bytes.Repeat([]byte{0xbb}, 20), bytes.Repeat([]byte{0xaa}, 22), bytes.Repeat([]byte{0xbb}, 22), bytes.Repeat([]byte{0xaa}, 23)} {
+		cp := *in
+		cp.Data = d
+		h := signer.Hash(types.NewTx(&cp))
+		if prev, dup := digests[h]; dup {
+			fail("sender-under-rewrite", "qi signing-digest ignores-data", fmt.Sprintf("Qi transaction %x: the signing digest is the same with data %x and with data %s, so a signature made for one authorises the other", tx.Hash().Bytes()[:6], d, prev))
+			return
+		}
+		digests[h] = fmt.Sprintf("%x", d)
+	}
+	simkit.Global.Inc("qi_digest_data_tables")
 	for _, x := range rws {
 		cp := *in
 		cp.TxIn = append(types.TxIns{}, in.TxIn...)
